@@ -344,3 +344,12 @@ Proof.
   - (* a class without a visit method *)
     cbn [gen_visit]. rewrite mv_unsupported. unfold TC_generic_visit. cbn. rewrite Z.add_simpl_r. destruct p; reflexivity.
 Qed.
+
+(* the generated converter / collectors started on an empty entity list *)
+Corollary gen_convert_bridge e : wf_expr e = true -> gen_visit None e [] = lift_tree [] (convert e).
+Proof.
+  intros Hwf. rewrite (gen_visit_bridge None e Hwf []). cbn [model_visit]. destruct (convert e); reflexivity.
+Qed.
+
+Corollary gen_collect_bridge c e : wf_expr e = true -> gen_visit (Some c) e [] = lift_visit [] (visit c e).
+Proof. intros Hwf. exact (gen_visit_bridge (Some c) e Hwf []). Qed.
